@@ -423,15 +423,21 @@ class SqlImpl(TableImpl):
             name_in_subquery = dict()
 
             # resolve potential column name collisions in the subquery
+            names = {sqa_expr[uid].name for uid in needed_cols.keys() if uid in sqa_expr}
+            used = set()
             for uid in needed_cols.keys():
                 if uid in sqa_expr:
                     name = sqa_expr[uid].name
-                    if c := cnt.get(name):
-                        name_in_subquery[uid] = f"{name}_{c}"
+                    if name in used:
+                        # a generated name must not be the name of another column
+                        c = cnt.get(name, 1)
+                        while f"{name}_{c}" in names or f"{name}_{c}" in used:
+                            c += 1
                         cnt[name] = c + 1
+                        name_in_subquery[uid] = f"{name}_{c}"
                     else:
                         name_in_subquery[uid] = name
-                        cnt[name] = 1
+                    used.add(name_in_subquery[uid])
                     sqa_expr[uid] = sqa.label(name_in_subquery[uid], sqa_expr[uid])
                     query.select.append(uid)
 
